@@ -356,3 +356,16 @@ Proof.
   intros mt ls s Hr Hq. pose proof (relay_drained mt ls s Hr Hq) as H. split; [exact H|].
   rewrite (relay_tombs_counter mt ls s Hr), H. reflexivity.
 Qed.
+
+(* A hazard the model exposes (outside C11's statement; reported for C09/C03): the tombstone GC
+   callback deletes by id.  If a handler that had stopped the timer finishes (deletes) an item
+   that another goroutine entombed in between, and the same id is registered again before the
+   GC callback runs, the callback deletes the NEW, live item: Release() on its armed timer
+   panics, and the pending counter is never decremented.  Model-level trace only. *)
+Lemma relay_gc_hits_reused_id_hazard :
+  exists ls s, rrun (rs_init 30000) ls = Some s /\
+    relay_quiet s = true /\ rs_items s = [] /\ rs_pending s = 1 /\ rs_panic s = true.
+Proof.
+  exists [RAdd 5; RGetStop 5; RFailStop 5; RFailHeld 5; RFinishHeld 5; RAdd 5; RGc 5].
+  eexists. split; [vm_compute; reflexivity|]. vm_compute. repeat split; reflexivity.
+Qed.
